@@ -85,7 +85,7 @@ ASSUMPTIONS = ["kill emulation is faithful for code that mutates the archive thr
                "crash = process death (SIGKILL); power loss / unsynced data is not part of C09",
                "I/O errors are injected instead of the operation (the operation has no effect)",
                "runs as root on a local file system with hard links"]
-TIME_BUDGET = {"quick": 215, "thorough": 1500}
+TIME_BUDGET = {"quick": 200, "thorough": 1500}
 BATCH = 8
 NONTRIVIAL_FLOOR = 50
 
@@ -207,8 +207,11 @@ class Tracer:
         self.files = []                   # real file objects (closed by the harness after the run)
         self.tmpnames = {}                # basename of every temporary file -> "<tmpN>"
         self.fired = []
+        self.fired_at = []
         self.competitor = None            # callable publishing the competing artifact
         self.on_mkdir = None
+        self.gate_min_write = 0           # sched layer: the 1..4 byte writes of the gzip header/trailer are not
+                                          # schedule points of their own (they run together with the next operation)
         self.outside_tmp = False
         self.outside_files = []           # temporary files created outside the archive (removed by the harness)
         self.nmut = 0
@@ -243,7 +246,7 @@ class Tracer:
             raise Killed()
         k = len(self.ops)
         self.ops.append([kind, arg])
-        if self.gate is not None:
+        if self.gate is not None and not (kind == "write" and arg[1] < self.gate_min_write):
             self.gate(k, kind, arg)
         plan = self.plan
         if plan.get("fault_index") == "mut":          # sched layer: k counts the mutating operations only
@@ -255,6 +258,10 @@ class Tracer:
             self.fired.append("competitor")
         f = plan.get("fault")
         if f and kind not in PROBES:
+            if isinstance(f[1], str):                 # hand-written cases: "the first operation of that kind"
+                if f[1] == kind and not self.fired_at:
+                    self.fired_at.append(k)
+                f = [f[0], self.fired_at[0] if self.fired_at else 1 << 30] + list(f[2:])
             if f[0] == "kill" and f[1] == k:
                 self.fired.append("kill")
                 if f[2] == "before":
@@ -592,8 +599,8 @@ def plan_str(plan, ops):
     f = plan.get("fault")
     if f:
         k = f[1]
-        out.append("%s %s op %d %s" % (f[0] if f[0] == "kill" else "OSError(%s)%s" % (f[2], " sticky" if len(f) > 3 and f[3] else ""),
-                                        f[2] if f[0] == "kill" else "at", k, ops[k] if k < len(ops) else "?"))
+        out.append("%s %s op %s %s" % (f[0] if f[0] == "kill" else "OSError(%s)%s" % (f[2], " sticky" if len(f) > 3 and f[3] else ""),
+                                        f[2] if f[0] == "kill" else "at", k, ops[k] if isinstance(k, int) and k < len(ops) else ""))
     return "; ".join(out) or "no fault"
 
 
@@ -750,7 +757,7 @@ class Single:
         ctx = self.ctx
         name, ops = res["name"], res["ops"]
         f = plan.get("fault")
-        at = ops[f[1]][0] if f and f[1] < len(ops) else "-"
+        at = (f[1] if isinstance(f[1], str) else ops[f[1]][0] if f[1] < len(ops) else "-") if f else "-"
         what = "%s upload, %s -> outcome %s%s" % (self.kind, plan_str(plan, ops), res["outcome"],
                                                   (" (%s)" % res["msg"][:120]) if res["msg"] and res["outcome"] != "ok" else "")
         case = dict(self.case, only=plan)
@@ -963,6 +970,7 @@ def run_job(job, gate, send):
         return reader_job(job, gate, send)
     plan = {"fault": job["fault"], "fault_index": "mut"} if job.get("fault") else {}
     tr = Tracer([job["arch"]], plan, gate=gate, real_kill=True)
+    tr.gate_min_write = 16
     la = A.LocalArchive(dict(job["spec"], path=job["arch"]))
     um = os.umask(0o022)
     undo = install(tr)
@@ -1148,7 +1156,7 @@ def _run_sched(ctx, case):
     nwork = len(jobs)
     robs = os.path.join(base, "robs"); os.makedirs(robs)
     for j in range(case["readers"]):
-        jobs.append({"role": "reader", "name": name, "out": robs, "idx": j, "chunk": [4096, 32768, 1 << 20][case.get("chunk", 1) % 3],
+        jobs.append({"role": "reader", "name": name, "out": robs, "idx": j, "chunk": [16384, 65536, 1 << 20][case.get("chunk", 1) % 3],
                      "max_iter": 16})
     if not jobs:
         return
@@ -1232,8 +1240,9 @@ def _run_sched(ctx, case):
     for i in range(len(jobs)):
         advance(i)
     sched = case["schedule"]
+    start = [(case.get("start") or [0] * 8)[i] if i < nwork else 0 for i in range(len(jobs))]   # late comers
     while pending:
-        runnable = sorted(pending)
+        runnable = sorted(i for i in pending if step[0] >= start[i]) or sorted(pending)
         workers_left = [i for i in runnable if i < nwork]
         if sched:
             # the generated list is the schedule (used cyclically); uploaders/mirror weigh twice a reader
@@ -1377,6 +1386,7 @@ sched_case = st.fixed_dictionaries({
             st.just(["none"]), st.just(["none"]), st.tuples(st.just("trunc"), st.integers(0, 10**6)).map(list),
             st.tuples(st.just("flip"), st.integers(0, 10**6), st.integers(0, 7)).map(list), st.just(["nows"]))})),
     "schedule": st.lists(st.integers(0, 11), min_size=20, max_size=120),
+    "start": st.lists(st.sampled_from([0, 0, 0, 5, 15, 25, 40, 60]), min_size=4, max_size=4),
 })
 
 
